@@ -259,51 +259,50 @@ def Op.target : Op → Option (Nat × Name)
   | .removeTrait o n => some (o, n)
   | .getTrait o n _ => some (o, n)
 
-/-- How the addressed object can change: other names are untouched; a new
-instance-trait entry is the `add_trait` argument or a copy of the trait that
-already governs. -/
-structure ObjChange (op : Op) (oi : Nat) (name : Name) (c : Cls) (o o' : Obj) : Prop where
+/-- How the addressed object can change.  Other names are untouched.  For the
+addressed name: the instance-trait entry stays, is removed by `remove_trait`,
+or becomes the `add_trait` argument / a copy of the class-level trait that
+governs; the `__dict__` entry stays, is removed by `remove_trait`, or is what
+the setter / getter of a trait the lookup dispatches to made of it. -/
+structure ObjChange (E : Env) (op : Op) (oi : Nat) (name : Name) (c : Cls) (o o' : Obj) : Prop where
   cls : o'.cls = o.cls
   dict : ∀ k, k ≠ name → o'.dict.get k = o.dict.get k
   itr : ∀ k, k ≠ name → o'.itraits.get k = o.itraits.get k
   itrMem : ∀ e ∈ o'.itraits, e ∈ o.itraits ∨ (op = .addTrait oi name e.2) ∨
     c.ctraits.get name = some e.2 ∨ ∃ b, prefixTrait c o name b = .ok e.2
-
-theorem ObjChange.refl (op : Op) (oi : Nat) (name : Name) (c : Cls) (o : Obj) : ObjChange op oi name c o o :=
-  ⟨rfl, fun _ _ => rfl, fun _ _ => rfl, fun _ he => Or.inl he⟩
-
-theorem ObjChange.ofDict (op : Op) (oi : Nat) {name : Name} (c : Cls) (o : Obj) {d : Map Val}
-    (h : ∀ k, k ≠ name → d.get k = o.dict.get k) : ObjChange op oi name c o { o with dict := d } :=
-  ⟨rfl, h, fun _ _ => rfl, fun _ he => Or.inl he⟩
+  itrT : o'.itraits.get name = o.itraits.get name ∨
+    (op = .removeTrait oi name ∧ o'.itraits.get name = none) ∨
+    ∃ t, o'.itraits.get name = some t ∧ (op = .addTrait oi name t ∨
+      (o.itraits.get name = none ∧ (c.ctraits.get name = some t ∨
+        (c.ctraits.get name = none ∧ ∃ b, prefixTrait c o name b = .ok t))))
+  dictT : o'.dict.get name = o.dict.get name ∨
+    (op = .removeTrait oi name ∧ o'.dict.get name = none) ∨
+    (∃ t value, Dispatch c o name true (.ok t) ∧ setattrKind E t o.dict name value = .ok o'.dict) ∨
+    (∃ t v, o.dict.get name = none ∧ Dispatch c o name false (.ok t) ∧
+      getattrKind E t o.dict name = .ok (v, o'.dict))
 
 /-- Everything one step can do. -/
-inductive Effect (w : World) : Op → World → Prop
-  | noop (op : Op) : Effect w op w
+inductive Effect (E : Env) (w : World) : Op → World → Prop
+  | noop (op : Op) : Effect E w op w
   | mkClass (bases : List Nat) (decls : List (Name × Trait)) (bs : List Cls)
       (h : bases.mapM (fun b => w.classes[b]?) = some bs) :
-      Effect w (.mkClass bases decls) { w with classes := w.classes ++ [mkClass bs decls] }
+      Effect E w (.mkClass bases decls) { w with classes := w.classes ++ [mkClass bs decls] }
   | new (ci : Nat) (c : Cls) (h : w.classes[ci]? = some c) :
-      Effect w (.new ci) { w with objs := w.objs ++ [{ cls := ci }] }
+      Effect E w (.new ci) { w with objs := w.objs ++ [{ cls := ci }] }
   | obj (op : Op) (oi : Nat) (name : Name) (o : Obj) (c : Cls) (w' : World) (o' : Obj)
       (ht : op.target = some (oi, name)) (ho : w.objs[oi]? = some o) (hc : w.classes[o.cls]? = some c)
-      (hres : Resolved w o c name w') (hch : ObjChange op oi name c o o') :
-      Effect w op { w' with objs := w'.objs.set oi o' }
+      (hres : Resolved w o c name w') (hch : ObjChange E op oi name c o o') :
+      Effect E w op { w' with objs := w'.objs.set oi o' }
   | res (op : Op) (oi : Nat) (name : Name) (o : Obj) (c : Cls) (w' : World)
       (ht : op.target = some (oi, name)) (ho : w.objs[oi]? = some o) (hc : w.classes[o.cls]? = some c)
-      (hres : Resolved w o c name w') : Effect w op w'
-
-theorem setDict_effect {w w' : World} {op : Op} {oi : Nat} {name : Name} {o : Obj} {c : Cls} {d : Map Val}
-    (ht : op.target = some (oi, name)) (ho : w.objs[oi]? = some o) (hc : w.classes[o.cls]? = some c)
-    (hres : Resolved w o c name w') (hd : ∀ k, k ≠ name → d.get k = o.dict.get k) :
-    Effect w op (setDict w' oi o d) :=
-  .obj op oi name o c w' { o with dict := d } ht ho hc hres (ObjChange.ofDict op oi c o hd)
+      (hres : Resolved w o c name w') : Effect E w op w'
 
 theorem setattro_effect (E : Env) {w : World} {op : Op} {oi : Nat} {name : Name} {o : Obj} {c : Cls}
     (value : Option Val) (ht : op.target = some (oi, name)) (ho : w.objs[oi]? = some o)
-    (hc : w.classes[o.cls]? = some c) : Effect w op (setattro E w oi o c name value).1 := by
+    (hc : w.classes[o.cls]? = some c) : Effect E w op (setattro E w oi o c name value).1 := by
   unfold setattro
-  have hr := (resolveSet_spec w o c name).1
-  generalize resolveSet w o c name = r at hr
+  obtain ⟨hr, hd⟩ := resolveSet_spec w o c name
+  generalize resolveSet w o c name = r at hr hd
   obtain ⟨w', res⟩ := r
   cases res with
   | error e => exact .res op oi name o c w' ht ho hc hr
@@ -311,61 +310,90 @@ theorem setattro_effect (E : Env) {w : World} {op : Op} {oi : Nat} {name : Name}
     simp only
     cases hk : setattrKind E t o.dict name value with
     | error e => exact .res op oi name o c w' ht ho hc hr
-    | ok d => exact setDict_effect ht ho hc hr (setattrKind_frame hk)
+    | ok d =>
+      exact .obj op oi name o c w' { o with dict := d } ht ho hc hr
+        ⟨rfl, setattrKind_frame hk, fun _ _ => rfl, fun _ he => Or.inl he, Or.inl rfl,
+         Or.inr (Or.inr (Or.inl ⟨t, value, hd, hk⟩))⟩
+
+theorem trait0_dispatch {c : Cls} {o : Obj} {name : Name} {t : Trait} (b : Bool)
+    (h : trait0 c o name = some t) : Dispatch c o name b (.ok t) := by
+  unfold trait0 at h
+  cases hi : o.itraits.get name with
+  | some t' => rw [hi] at h; cases h; exact .inst hi
+  | none => rw [hi] at h; exact .cls hi h
+
+theorem trait0_none {c : Cls} {o : Obj} {name : Name} (h : trait0 c o name = none) :
+    o.itraits.get name = none ∧ c.ctraits.get name = none := by
+  unfold trait0 at h
+  cases hi : o.itraits.get name with
+  | some t' => rw [hi] at h; cases h
+  | none => rw [hi] at h; exact ⟨rfl, h⟩
 
 theorem getattro_effect (E : Env) {w : World} {op : Op} {oi : Nat} {name : Name} {o : Obj} {c : Cls}
     (ht : op.target = some (oi, name)) (ho : w.objs[oi]? = some o)
-    (hc : w.classes[o.cls]? = some c) : Effect w op (getattro E w oi o c name).1 := by
+    (hc : w.classes[o.cls]? = some c) : Effect E w op (getattro E w oi o c name).1 := by
   unfold getattro
-  split
-  · exact .noop op
-  · split
-    · rename_i t _
+  cases hdict : o.dict.get name with
+  | some v => exact .noop op
+  | none =>
+    simp only
+    have fin : ∀ (w' : World) (t : Trait) (v : Val) (d : Map Val), Resolved w o c name w' →
+        Dispatch c o name false (.ok t) → getattrKind E t o.dict name = .ok (v, d) →
+        Effect E w op (setDict w' oi o d) := by
+      intro w' t v d hres hd hk
+      exact .obj op oi name o c w' { o with dict := d } ht ho hc hres
+        ⟨rfl, getattrKind_frame hk, fun _ _ => rfl, fun _ he => Or.inl he, Or.inl rfl,
+         Or.inr (Or.inr (Or.inr ⟨t, v, hdict, hd, hk⟩))⟩
+    cases h0 : trait0 c o name with
+    | some t =>
+      simp only
       cases hk : getattrKind E t o.dict name with
       | error e => exact .noop op
       | ok r =>
         obtain ⟨v, d⟩ := r
-        exact setDict_effect ht ho hc .same (getattrKind_frame hk)
-    · rename_i h0
-      split
-      · exact .noop op
-      · have hi : o.itraits.get name = none := by
-          unfold trait0 at h0; split at h0 <;> simp_all
-        have hct : c.ctraits.get name = none := by
-          unfold trait0 at h0; rw [hi] at h0; exact h0
+        exact fin w t v d .same (trait0_dispatch false h0) hk
+    | none =>
+      simp only
+      cases E.classAttr name with
+      | some v => exact .noop op
+      | none =>
+        simp only
+        obtain ⟨hi, hct⟩ := trait0_none h0
         have hr := getPrefixTrait_resolved w false hi hct
-        generalize getPrefixTrait w o c name false = r at hr
-        obtain ⟨w', res⟩ := r
-        cases res with
-        | error e => exact .res op oi name o c w' ht ho hc hr
-        | ok t =>
-          simp only
-          cases hk : getattrKind E t o.dict name with
+        cases hg : getPrefixTrait w o c name false with
+        | mk w' res =>
+          rw [hg] at hr
+          cases res with
           | error e => exact .res op oi name o c w' ht ho hc hr
-          | ok r =>
-            obtain ⟨v, d⟩ := r
-            exact setDict_effect ht ho hc hr (getattrKind_frame hk)
+          | ok t =>
+            simp only
+            cases hk : getattrKind E t o.dict name with
+            | error e => exact .res op oi name o c w' ht ho hc hr
+            | ok r =>
+              obtain ⟨v, d⟩ := r
+              exact fin w' t v d hr (.pref hi hct (getPrefixTrait_result hi hg)) hk
 
-theorem getTrait_effect {w : World} {op : Op} {oi : Nat} {name : Name} {o : Obj} {c : Cls} (inst : Int)
+theorem getTrait_effect (E : Env) {w : World} {op : Op} {oi : Nat} {name : Name} {o : Obj} {c : Cls} (inst : Int)
     (ht : op.target = some (oi, name)) (ho : w.objs[oi]? = some o)
-    (hc : w.classes[o.cls]? = some c) : Effect w op (getTrait w oi o c name inst).1 := by
+    (hc : w.classes[o.cls]? = some c) : Effect E w op (getTrait w oi o c name inst).1 := by
   unfold getTrait
   cases hi : o.itraits.get name with
   | some t => exact .noop op
   | none =>
     have clone : ∀ (w' : World) (t : Trait), Resolved w o c name w' →
-        (c.ctraits.get name = some t ∨ ∃ b, prefixTrait c o name b = .ok t) →
-        Effect w op { w' with objs := w'.objs.set oi { o with itraits := o.itraits.set name t } } := by
+        (c.ctraits.get name = some t ∨ (c.ctraits.get name = none ∧ ∃ b, prefixTrait c o name b = .ok t)) →
+        Effect E w op { w' with objs := w'.objs.set oi { o with itraits := o.itraits.set name t } } := by
       intro w' t hres hsrc
-      refine .obj op oi name o c w' _ ht ho hc hres ⟨rfl, fun _ _ => rfl, ?_, ?_⟩
+      refine .obj op oi name o c w' _ ht ho hc hres ⟨rfl, fun _ _ => rfl, ?_, ?_, ?_, Or.inl rfl⟩
       · intro k hk; exact Map.get_set_ne _ _ (Ne.symm hk)
       · intro e he
         rcases List.mem_cons.mp he with he | he
         · subst he
           rcases hsrc with h | h
           · exact Or.inr (Or.inr (Or.inl h))
-          · exact Or.inr (Or.inr (Or.inr h))
+          · exact Or.inr (Or.inr (Or.inr h.2))
         · exact Or.inl he
+      · exact Or.inr (Or.inr ⟨t, Map.get_set_same _ _ _, Or.inr ⟨hi, hsrc⟩⟩)
     by_cases h1 : inst = 1
     · simp only [h1, ↓reduceIte]; exact .noop op
     · simp only [h1, ↓reduceIte]
@@ -389,23 +417,27 @@ theorem getTrait_effect {w : World} {op : Op} {oi : Nat} {name : Name} {o : Obj}
               by_cases hle : inst ≤ 0
               · simp only [hle, ↓reduceIte]; exact .res op oi name o c w' ht ho hc hr
               · simp only [hle, ↓reduceIte]
-                exact clone w' t hr (Or.inr ⟨false, getPrefixTrait_result hi hg⟩)
+                exact clone w' t hr (Or.inr ⟨hct, false, getPrefixTrait_result hi hg⟩)
 
-theorem removeTrait_effect {w : World} {op : Op} {oi : Nat} {name : Name} {o : Obj} {c : Cls}
-    (ht : op.target = some (oi, name)) (ho : w.objs[oi]? = some o)
-    (hc : w.classes[o.cls]? = some c) : Effect w op (removeTrait w oi o c name).1 := by
+theorem removeTrait_effect (E : Env) {w : World} {oi : Nat} {name : Name} {o : Obj} {c : Cls}
+    (ho : w.objs[oi]? = some o) (hc : w.classes[o.cls]? = some c) :
+    Effect E w (.removeTrait oi name) (removeTrait w oi o c name).1 := by
   unfold removeTrait
   split
-  · exact .noop op
+  · exact .noop _
   · split
-    · refine .obj op oi name o c w _ ht ho hc .same ⟨rfl, ?_, ?_, ?_⟩
+    · refine .obj _ oi name o c w _ rfl ho hc .same ⟨rfl, ?_, ?_, ?_, ?_, ?_⟩
       · intro k hk; exact Map.get_erase_ne _ (Ne.symm hk)
       · intro k hk; exact Map.get_erase_ne _ (Ne.symm hk)
       · intro e he; exact Or.inl (Map.mem_erase he)
-    · refine .obj op oi name o c w _ ht ho hc .same ⟨rfl, ?_, fun _ _ => rfl, fun _ he => Or.inl he⟩
-      intro k hk; exact Map.get_erase_ne _ (Ne.symm hk)
+      · exact Or.inr (Or.inl ⟨rfl, Map.get_erase_same _ _⟩)
+      · exact Or.inr (Or.inl ⟨rfl, Map.get_erase_same _ _⟩)
+    · refine .obj _ oi name o c w _ rfl ho hc .same
+        ⟨rfl, ?_, fun _ _ => rfl, fun _ he => Or.inl he, Or.inl rfl, ?_⟩
+      · intro k hk; exact Map.get_erase_ne _ (Ne.symm hk)
+      · exact Or.inr (Or.inl ⟨rfl, Map.get_erase_same _ _⟩)
 
-theorem step_effect (E : Env) (w : World) (op : Op) : Effect w op (step E w op).1 := by
+theorem step_effect (E : Env) (w : World) (op : Op) : Effect E w op (step E w op).1 := by
   cases op with
   | mkClass bases decls =>
     simp only [step]
@@ -451,12 +483,13 @@ theorem step_effect (E : Env) (w : World) (op : Op) : Effect w op (step E w op).
       | some c =>
         rw [withObj_eq ho hc]
         unfold addTrait
-        refine .obj _ oi n o c w _ rfl ho hc .same ⟨rfl, fun _ _ => rfl, ?_, ?_⟩
+        refine .obj _ oi n o c w _ rfl ho hc .same ⟨rfl, fun _ _ => rfl, ?_, ?_, ?_, Or.inl rfl⟩
         · intro k hk; exact Map.get_set_ne _ _ (Ne.symm hk)
         · intro e he
           rcases List.mem_cons.mp he with he | he
           · subst he; exact Or.inr (Or.inl rfl)
           · exact Or.inl he
+        · exact Or.inr (Or.inr ⟨t, Map.get_set_same _ _ _, Or.inl rfl⟩)
   | removeTrait oi n =>
     simp only [step]
     cases ho : w.objs[oi]? with
@@ -464,7 +497,7 @@ theorem step_effect (E : Env) (w : World) (op : Op) : Effect w op (step E w op).
     | some o =>
       cases hc : w.classes[o.cls]? with
       | none => rw [withObj_bad _ (Or.inr ⟨o, ho, hc⟩)]; exact .noop _
-      | some c => rw [withObj_eq ho hc]; exact removeTrait_effect rfl ho hc
+      | some c => rw [withObj_eq ho hc]; exact removeTrait_effect E ho hc
   | getTrait oi n inst =>
     simp only [step]
     cases ho : w.objs[oi]? with
@@ -472,6 +505,6 @@ theorem step_effect (E : Env) (w : World) (op : Op) : Effect w op (step E w op).
     | some o =>
       cases hc : w.classes[o.cls]? with
       | none => rw [withObj_bad _ (Or.inr ⟨o, ho, hc⟩)]; exact .noop _
-      | some c => rw [withObj_eq ho hc]; exact getTrait_effect inst rfl ho hc
+      | some c => rw [withObj_eq ho hc]; exact getTrait_effect E inst rfl ho hc
 
 end TraitsVerif.Model.Resolve
